@@ -1,6 +1,7 @@
 package main
 
 import (
+	"runtime/pprof"
 	"flag"
 	"fmt"
 	"os"
@@ -102,6 +103,9 @@ func cmdVerify(args []string) {
 	verbose := fs.Bool("v", false, "verbose")
 	dump := fs.String("dump", "", "write failing queries to this directory")
 	timeout := fs.Int("timeout", 10, "solver timeout (s)")
+	maxPaths := fs.Int("maxpaths", 20000, "path cap per function")
+	cpuprof := fs.String("cpuprofile", "", "write a CPU profile")
+	noSolve := fs.Bool("nosolve", false, "generate obligations only; write a few queries to -dump")
 	ovl := fs.String("overlay", "", "orig=replacement[,orig=replacement] source overlays")
 	fs.Parse(args)
 	overlay := map[string][]byte{}
@@ -116,8 +120,14 @@ func cmdVerify(args []string) {
 			overlay[p[0]] = b
 		}
 	}
+	if *cpuprof != "" {
+		pf, _ := os.Create(*cpuprof)
+		pprof.StartCPUProfile(pf)
+		defer pprof.StopCPUProfile()
+	}
 	e := NewEngine()
 	e.verbose = *verbose
+	e.maxPaths = *maxPaths
 	if err := e.Load(*dir, overlay, strings.Split(*pkg, ",")...); err != nil {
 		fmt.Fprintln(os.Stderr, "load:", err)
 		os.Exit(2)
@@ -148,6 +158,37 @@ func cmdVerify(args []string) {
 			fmt.Printf("ENGINE-ERROR %s: %s\n", k, r.EngineErr)
 		}
 	}
+	if *noSolve {
+		for _, r := range results {
+			kinds := map[string]int{}
+			quant := 0
+			for _, o := range r.Obls {
+				kinds[o.Kind]++
+				if o.Quantified() {
+					quant++
+				}
+			}
+			fmt.Printf("== %s: %d paths, %d obligations %v, %d quantified\n", r.Key, r.Paths, len(r.Obls), kinds, quant)
+			names := map[string]int{}
+			for _, o := range r.Obls {
+				if o.Kind == "frame" {
+					names[o.Label]++
+				}
+			}
+			for _, k := range sortedKeys(names) {
+				fmt.Printf("     frame %s x%d\n", k, names[k])
+			}
+			if *dump != "" {
+				os.MkdirAll(*dump, 0o755)
+				for i, o := range r.Obls {
+					if i%(len(r.Obls)/6+1) == 0 && o.Res == nil {
+						os.WriteFile(filepath.Join(*dump, fmt.Sprintf("sample_%d.smt2", i)), []byte("; "+o.Name+" trail "+o.Trail+"\n"+o.BuildQuery(r.Inputs, false)), 0o644)
+					}
+				}
+			}
+		}
+		return
+	}
 	Discharge(solver, results, nil)
 	bad := 0
 	for _, r := range results {
@@ -174,7 +215,7 @@ func cmdVerify(args []string) {
 			bad++
 		}
 		if *verbose || !g.OK {
-			fmt.Printf("%-6s %s # %s (%d paths, %.2fs) %s\n", status, g.Func, g.Name, g.Paths, g.Seconds, g.Where)
+			fmt.Printf("%-6s %s # %s (%d paths, %.2fs) %s at %s\n", status, g.Func, g.Name, g.Paths, g.Seconds, g.Where, g.At)
 		}
 		if *dump != "" && *only != "" && g.OK && g.Kind != "cover" {
 			os.MkdirAll(*dump, 0o755)
@@ -209,5 +250,40 @@ func cmdVerify(args []string) {
 		}
 	}
 	fmt.Printf("groups failed: %d\n", bad)
+	if *verbose || *only != "" {
+		buckets := []float64{0.05, 0.2, 1, 3, 10, 1e9}
+		cnt := make([]int, len(buckets))
+		tot := 0.0
+		type slow struct {
+			n string
+			s float64
+			st string
+		}
+		var slows []slow
+		for _, r := range results {
+			for _, o := range r.Obls {
+				if o.Res == nil {
+					continue
+				}
+				tot += o.Res.Seconds
+				for i, b := range buckets {
+					if o.Res.Seconds <= b {
+						cnt[i]++
+						break
+					}
+				}
+				if o.Res.Seconds > 3 {
+					slows = append(slows, slow{o.Name, o.Res.Seconds, o.Res.Status + "/" + o.Res.Backend})
+				}
+			}
+		}
+		fmt.Printf("solver time total %.0fs; histogram <=0.05:%d <=0.2:%d <=1:%d <=3:%d <=10:%d >10:%d\n", tot, cnt[0], cnt[1], cnt[2], cnt[3], cnt[4], cnt[5])
+		for i, s := range slows {
+			if i > 12 {
+				break
+			}
+			fmt.Printf("   slow %.1fs %s %s\n", s.s, s.st, s.n)
+		}
+	}
 }
 
